@@ -460,14 +460,14 @@ func (t *distributedTarget) saveObject(obj object.Object, encObj encodedObject) 
 
 	leftReplicas := maxReplicas
 
-	handleECRule := func(ruleIdx int, ecRuleIdx int, payloadParts [][]byte, ecRule iec.Rule) (bool, error) {
+	handleECRule := func(pos int, ruleIdx int, ecRuleIdx int, payloadParts [][]byte, ecRule iec.Rule) (bool, error) {
 		err := t.applyECRule(t.sessionSigner, obj, ecRuleIdx, payloadParts, ecRule, objNodeLists[ruleIdx])
 		if err != nil {
 			err = fmt.Errorf("apply EC rule #%d (%s): %w", ecRuleIdx, ecRules[ecRuleIdx], err)
 			if maxReplicas == 0 {
 				return false, err
 			}
-			if leftReplicas > sumLimitsSinceRule(ruleIdx+1) {
+			if leftReplicas > sumLimitsSinceRule(pos+1) {
 				return false, newMaxReplicasError(maxReplicas, maxReplicas-leftReplicas, ruleIdx, err)
 			}
 			t.placementIterator.log.Info("PUT by EC rule failure", zap.Stringer("object", obj.Address()), zap.Error(err))
@@ -495,7 +495,7 @@ func (t *distributedTarget) saveObject(obj object.Object, encObj encodedObject) 
 			}
 
 			// a repeated rule has its own node list, limit and encoded parts
-			fin, err := handleECRule(ruleIdx, ecRuleIdx, t.encodedECParts[ecRuleIdx], ecRules[ecRuleIdx])
+			fin, err := handleECRule(i, ruleIdx, ecRuleIdx, t.encodedECParts[ecRuleIdx], ecRules[ecRuleIdx])
 			if err != nil {
 				return err
 			}
